@@ -170,6 +170,9 @@ impl Callable for Access {
                 bail!("Can not access a tuple with: {}", index)
             };
             if let Type::Tuple(mut t) = obj {
+                if *index < 0 || *index as usize >= t.len() {
+                    bail!("tuple index {} out of range, the tuple has {} member(s)", index, t.len())
+                }
                 Ok(t.remove(*index as usize))
             } else {
                 bail!("Can not access type: {}", obj)
